@@ -14,7 +14,9 @@ textbook population variance `σ² = (1/n)·Σ(x − μ)²` over exact rationals
         `variance_of_equal_values_is_zero`, `variance_of_ints_cross_multiplied` (`n²·σ² = n·Σx² − (Σx)²`).
   (ii)  `variance_exact_where_no_step_rounds`, `stddev_exact_where_no_step_rounds`: for INT arguments on which no step of the
         formula rounds (`onePassExactInts`, `sqrtExact`: decidable; satisfied e.g. by small integers whose count is a power of
-        two) the REAL the model shows IS the textbook variance / standard deviation, exactly. Examples.
+        two) the REAL the model shows IS the textbook variance / standard deviation, exactly; `variance_exact_where_no_step_rounds_real`
+        the same for REAL arguments whose running sums are exact as well (`onePassExactReals`); `engine_variance_exact_where_no_step_rounds`
+        carries it to the engine's running computation. Examples.
   (iii) `every_step_is_correctly_rounded`: in general each of the four operations returns the REAL nearest to the exact
         result on its (already rounded) operands — and that is all. It does NOT follow that the result is the REAL nearest
         to the variance, or near it, or non-negative: `Σx² − (Σx)²/n` cancels. FALSE in general, with kernel-evaluated
@@ -137,6 +139,33 @@ theorem engine_variance_exact_where_no_step_rounds (e : Expr) (vs : List Value) 
   obtain ⟨c, hc, hs, _⟩ := Props.C04.aggregate_fold_refines (.stddev e true) vs (.real v) hvs hv rfl
   exact ⟨c, v, hc, hs, hx⟩
 
+theorem reals_map_real' (l : List Nat) : reals (l.map Value.real) = some l := by
+  induction l with
+  | nil => rfl
+  | cons x xs ih => simp only [reals, List.map_cons, asReal, collect_cons_some] at ih ⊢; rw [ih]; rfl
+
+theorem ints_real_none (y : Nat) (ys : List Value) : ints (Value.real y :: ys) = none := by
+  simp [ints, asInt, collect]
+
+/-- **(ii) VARIANCE of REAL arguments.** For finite REAL arguments on which neither the running sums `Σx`, `Σ(x·x)` nor the
+formula round (`onePassExactReals`, decidable) and whose first value is not `-0.0`, the REAL shown is finite and its exact value
+is the textbook population variance of the exact values of the arguments. -/
+theorem variance_exact_where_no_step_rounds_real (e : Expr) (vs : List Value) (r : Nat) (rs : List Nat)
+    (h : nonNull vs = (r :: rs).map Value.real)
+    (hz : zeroNeutral (r :: rs) = true ∧ zeroNeutral ((r :: rs).map (fun x => F64.mul x x)) = true)
+    (hex : onePassExactReals (r :: rs) = true) :
+    ∃ v, aggregate (.stddev e true) vs = some (.real v) ∧ F64.IsExactly v (popVariance ((r :: rs).map F64.toRat)) := by
+  have hr := reals_map_real' (r :: rs)
+  have hv : aggregate (.stddev e true) vs = some (.real (spread (r :: rs).length true (realSum (r :: rs))
+      (realSum ((r :: rs).map (fun x => F64.mul x x))))) := by
+    simp only [List.map_cons] at hr
+    simp only [aggregate, h, stddevOf, List.map_cons, ints_real_none, hr]
+    simp only [List.map_cons] at hz
+    simp only [hz.1, hz.2, Bool.and_self, if_true]
+  refine ⟨_, hv, ?_⟩
+  rw [spread_variance]
+  exact onePass_exact_value_reals (r :: rs) (by simp) hex
+
 /-! examples: the hypotheses hold on non-trivial values, and the conclusions are evaluated -/
 
 /-- 2, 4, 4, 4, 5, 5, 7, 9 (mean 5): no step rounds; VARIANCE is the REAL 4.0, STDDEV the REAL 2.0 — the textbook values -/
@@ -149,6 +178,11 @@ example : aggregate (.stddev (.column "v") true) [.int 2, .int 4, .null, .int 4,
       some (.real 0x4000000000000000) ∧
     F64.toRat 0x4010000000000000 = 4 ∧ F64.toRat 0x4000000000000000 = 2 :=
   ⟨real_of_bits (by decide +kernel), real_of_bits (by decide +kernel), by decide +kernel, by decide +kernel⟩
+/-- REAL arguments 0.5, 1.5, −2.25, 100.0 (bit patterns): sums, squares and the formula are exact; VARIANCE is exactly
+`1880.01171875` = the textbook variance of these four numbers -/
+example : onePassExactReals [0x3fe0000000000000, 0x3ff8000000000000, 0xc002000000000000, 0x4059000000000000] = true ∧
+    popVariance ([0x3fe0000000000000, 0x3ff8000000000000, 0xc002000000000000, 0x4059000000000000].map F64.toRat) = 481283 / 256 := by
+  decide +kernel
 /-- −3, 1, 5, 9 (mean 3): variance 20, not a perfect square: `onePassExactInts` holds, `sqrtExact` does not (√20 rounds) -/
 example : onePassExactInts [-3, 1, 5, 9] = true ∧ popVariance (ratsOfInts [-3, 1, 5, 9]) = 20 ∧
     sqrtExact (populationVariance 4 (F64.ofInt 12) (F64.ofInt 116)) = false := by decide +kernel
